@@ -160,6 +160,19 @@ def lastOr (q : Option Nat) : Str → Option Nat
 def Separated (ce : CharEnv) (pre post : Str) : Prop :=
   wordAt ce (lastOr none pre) = false ∧ wordAt ce post.head? = false
 
+/-- **Case variants as `re` sees them**: two code points its tables cannot tell apart under IGNORECASE — same classes
+    `\d \s \w`, equal to the same pattern literals, inside the same ranges, and both or neither a line feed -/
+def CaseEqv (ce : CharEnv) (a b : Nat) : Prop :=
+  ce.isDigit a = ce.isDigit b ∧ ce.isSpace a = ce.isSpace b ∧ ce.isWord a = ce.isWord b ∧
+  (∀ x, ce.ceq x a = ce.ceq x b) ∧
+  (∀ lo hi, (ce.cases a).any (fun d => lo ≤ d && d ≤ hi) = (ce.cases b).any (fun d => lo ≤ d && d ≤ hi)) ∧
+  ((a == 10) = (b == 10))
+
+/-- texts that are `CaseEqv` code point by code point (in particular of the same length) -/
+inductive CaseVar (ce : CharEnv) : Str → Str → Prop where
+  | nil : CaseVar ce [] []
+  | cons {a b : Nat} {s t : Str} : CaseEqv ce a b → CaseVar ce s t → CaseVar ce (a :: s) (b :: t)
+
 /-! ### the concrete tables the driver runs with
 
 ASCII, Latin-1, basic Greek, basic Cyrillic, kana and CJK ideographs; the harness compares them with the real `re` on
